@@ -491,6 +491,8 @@ var Methods = map[string]MethodSig{
 	"IsBig": {Name: "IsBig", Params: []Type{TInt}, Ret: TBool},
 	"Join":  {Name: "Join", Params: []Type{TString, TString}, Ret: TString},
 	"Level": {Name: "Level", Ret: TInt, Reads: "I"},
+	"Boom":    {Name: "Boom", Params: []Type{TInt}, Ret: TInt},
+	"BoomErr": {Name: "BoomErr", Params: []Type{TInt}, Ret: TInt},
 	"Label": {Name: "Label", Ret: TString, Reads: "S"},
 	"SetI":  {Name: "SetI", Params: []Type{TInt}, Mutator: true},
 	"Bump":  {Name: "Bump", Params: []Type{TInt}, Mutator: true},
@@ -561,6 +563,8 @@ func (m *Model) evalCall(e *Expr, apply bool) (interface{}, error) {
 		return "tag", nil
 	case "Level":
 		return f.I, nil
+	case "Boom", "BoomErr":
+		return nil, merr("method %s panics", e.Fn)
 	case "Label":
 		return f.S, nil
 	case "Sum":
